@@ -128,6 +128,22 @@ pub fn scenario_cut(ctx: &mut Ctx) -> ScResult {
     ctx.st.add("enum.cut_points", m.len() as u64);
     ctx.st.cases_nontrivial += m.len() as u64;
     ctx.case_hashes.push(mh);
+    // --- a stalled stream: the reader asks again and again about the same incomplete message and
+    // must get the same answer every time (40 times in a row, at three drawn cut points)
+    for _ in 0..3 {
+        let c = ctx.ch.below(m.len() as u64) as usize;
+        let p = &m[..c];
+        let want_expected = if c < 20 { 20 } else { m.len() };
+        for i in 0..40 {
+            let r = g("C17", "Message::from_bytes", || Message::from_bytes(p).map(|_| ()))?;
+            if !matches!(r, Err(StunParseError::Truncated { expected, actual }) if expected == want_expected && actual == c) {
+                let v = Violation::new("C17", "prefix_reported_truncated", "repeated_parse_of_same_prefix", format!("prefix of {c} bytes of a well-formed {}-byte message, parsed for the {}th time in a row: expected Truncated {{ expected: {want_expected}, actual: {c} }}, got {r:?}", m.len(), i + 1));
+                ev!(ctx, "  !! {}", v.message);
+                return Err(v);
+            }
+        }
+        ctx.st.inc("fault.stalled_stream_repeated_parse");
+    }
     // --- header decoder vs full parser: each of the 160 header bits flipped, plus the original
     for bit in 0..=160usize {
         let mut x = m.clone();
@@ -138,6 +154,23 @@ pub fn scenario_cut(ctx: &mut Ctx) -> ScResult {
     }
     ctx.st.add("enum.header_bit_flips", 160);
     ctx.st.cases += 161;
+    // --- the header decoder alone, on headers that differ from the previous one in a single bit,
+    // back to back (no full parse in between): what it reports must come from the bytes it was given
+    for bit in 0..160usize {
+        let mut x = m[..20].to_vec();
+        x[bit / 8] ^= 0x80 >> (bit % 8);
+        let r = g("C17", "MessageHeader::from_bytes", || MessageHeader::from_bytes(&x).map(|h| (h.transaction_id(), h.data_length())))?;
+        if let Ok((tid, len)) = r {
+            let want_tid: u128 = crate::agentapi::tid_of(&x).unwrap();
+            let got_tid: u128 = tid.into();
+            let want_len = ((x[2] as u16) << 8) | x[3] as u16;
+            if got_tid != want_tid || len != want_len {
+                let v = Violation::new("C17", "header_decoder_agrees", "reports_other_headers_fields", format!("MessageHeader::from_bytes on {} reports transaction id {got_tid:#x} and length {len}; the bytes encode {want_tid:#x} and {want_len}", hex(&x)));
+                ev!(ctx, "  !! {}", v.message);
+                return Err(v);
+            }
+        }
+    }
     // --- header-delimited reassembly of a message sequence over a segmented stream
     let k = ctx.ch.range(1, 4) as usize;
     let mut sent = vec![m.clone()];
@@ -281,9 +314,83 @@ fn crc_judge(ctx: &mut Ctx, orig: &[u8], x: &[u8], what: &str) -> ScResult {
     Ok(())
 }
 
+/// A fingerprinted (unsigned) message whose CRC — the value the receiver computes — is a chosen
+/// 32-bit value: 0, all-ones, the XOR constant or its complement (so that the value on the wire is
+/// 0x5354554e, its complement, 0 or all-ones).  CRC-32 is affine in any four message bytes, so the
+/// four bytes of a raw attribute placed last are solved for by Gaussian elimination over GF(2).
+/// Sentinels ("0 means not computed / not present") live at exactly these values.
+fn crafted_crc_spec(ctx: &mut Ctx) -> Option<(MsgSpec, u32)> {
+    let pool = gen_addr_pool(ctx.ch, 3);
+    let mut attrs = gen_attrs(ctx.ch, &pool, &SpecOpts { max_attrs: 2, big: 0 });
+    attrs.retain(|a| !matches!(a, TAttr::Raw(0x7f03, _)));
+    attrs.push(TAttr::Raw(0x7f03, vec![0; 4]));
+    let mut spec = MsgSpec { class: ctx.ch.below(4) as u8, method: *ctx.ch.pick(&[1u16, 0, 0xfff, 3]), tid: gen_tid(ctx.ch), attrs, seals: vec![Seal::Fp] };
+    let target = *ctx.ch.pick(&[0u32, u32::MAX, refcodec::FP_XOR, !refcodec::FP_XOR]);
+    let m0 = spec.build();
+    let n = m0.len();
+    if n < 32 || m0[n - 16..n - 12] != [0x7f, 0x03, 0x00, 0x04] {
+        return None;
+    }
+    let crc_of = |v: [u8; 4]| {
+        let mut p = m0[..n - 8].to_vec();
+        p[n - 12..n - 8].copy_from_slice(&v);
+        refcodec::crc32_with_len(&p, (n - 20) as u16)
+    };
+    let c0 = crc_of([0; 4]);
+    // columns of the linear part, reduced to a basis indexed by leading bit (Gaussian elimination)
+    let mut basis: [Option<(u32, u32)>; 32] = [None; 32];
+    for i in 0..32 {
+        let mut c = crc_of((1u32 << i).to_be_bytes()) ^ c0;
+        let mut mask = 1u32 << i;
+        for bit in (0..32).rev() {
+            if c >> bit & 1 == 0 {
+                continue;
+            }
+            match basis[bit] {
+                Some((bc, bm)) => {
+                    c ^= bc;
+                    mask ^= bm;
+                }
+                None => {
+                    basis[bit] = Some((c, mask));
+                    break;
+                }
+            }
+        }
+    }
+    let mut want = target ^ c0;
+    let mut sol = 0u32;
+    for bit in (0..32).rev() {
+        if want >> bit & 1 == 1 {
+            match basis[bit] {
+                Some((bc, bm)) => {
+                    want ^= bc;
+                    sol ^= bm;
+                }
+                None => return None,
+            }
+        }
+    }
+    if want != 0 || crc_of(sol.to_be_bytes()) != target {
+        return None;
+    }
+    let k = spec.attrs.len() - 1;
+    spec.attrs[k] = TAttr::Raw(0x7f03, sol.to_be_bytes().to_vec());
+    Some((spec, target))
+}
+
 pub fn scenario_crc(ctx: &mut Ctx) -> ScResult {
     let creds = gen_creds(ctx.ch);
-    let (m, desc, spec) = gen_wellformed_spec(ctx, &creds, true, false, false);
+    let crafted = if ctx.ch.rare(1, 6) { crafted_crc_spec(ctx) } else { None };
+    let (m, desc, spec) = match crafted {
+        Some((spec, target)) => {
+            ctx.st.inc("probe.message_with_crafted_crc_value");
+            let b = spec.build();
+            let d = format!("{} [crafted: receiver-side CRC = {target:#010x}]", spec.desc());
+            (b, d, Some(spec))
+        }
+        None => gen_wellformed_spec(ctx, &creds, true, false, false),
+    };
     let by_lib = spec.is_some();
     // (i'') a message the library's builder sealed with a FINGERPRINT that is not the CRC of its own
     // bytes never gets as far as the corruption loop (the reference refuses it): report it here
@@ -589,6 +696,14 @@ pub fn scenario_tamper(ctx: &mut Ctx) -> ScResult {
     for _ in 0..6 {
         let other = gen_other_creds(ctx.ch, &creds);
         let lo = other.lib();
+        // the right key immediately before the wrong one (and after the previous wrong one):
+        // whatever the library remembers from one derivation or validation must not carry over
+        let again = g("C04", "Message::validate_integrity", || Message::from_bytes(&m).unwrap().validate_integrity(&lc).is_ok())?;
+        if !again {
+            let v = Violation::new("C04", "sealed_message_validates", "after_other_key", format!("the sealed message no longer validates under its own key {} after a validation under another key", creds.short_desc()));
+            ev!(ctx, "  !! {}", v.message);
+            return Err(v);
+        }
         let r = g("C04", "Message::validate_integrity", || Message::from_bytes(&m).unwrap().validate_integrity(&lo).map_err(|e| format!("{e:?}")))?;
         ctx.st.cases += 1;
         ctx.st.inc("fault.key_mismatch");
